@@ -756,6 +756,9 @@ func ruleErrFlow(rule string) ruleFn {
 				}
 				// callees of this module (functions, methods, methods of its interfaces): the error
 				// vocabulary the properties talk about; library primitives are the business of C08-ERR
+				if g, fwd := injectedCallee(&cl.Call); g != nil && fwd && !isJivaFn(g) {
+					return // a library primitive reached through an injected dependency's forwarder
+				}
 				if cc := cl.Call; cc.IsInvoke() {
 					if n, ok := cc.Value.Type().(*types.Named); !ok || n.Obj().Pkg() == nil || !isJivaPkg(n.Obj().Pkg()) {
 						if !(cc.Method.Name() == "ReadAt" && strings.HasPrefix(FnName(fn), fRepl)) {
